@@ -63,6 +63,12 @@ def api(case: dict) -> dict:
             for tr in orig(*a, **k):
                 forest.append(tr)
                 yield tr
+        if case.get("history"):
+            import itertools
+            try:
+                list(itertools.islice(fan.grammar.parse_forest(word, include_controlflow=True), 400))
+            except Exception:  # noqa — judged by the request below
+                pass
         fan.grammar.parse_forest = recording
         try:
             for t in fan.parse(word):
